@@ -91,11 +91,22 @@ Section Hist.
     rewrite has_record_set_record. f_equal. apply staking_execute_closed in X. rewrite X. reflexivity.
   Qed.
 
-  Definition no_import (o : op sigT) : Prop := match o with OExportImport _ => False | _ => True end.
-
-  Lemma step_keeps_record : forall s o a, no_import o -> has_record s a = true -> has_record (step sigT recover s o) a = true.
+  Lemma sget_map_values {V W} (g : V -> W) : forall k (m : list (Z * V)),
+    sget Z.eqb k (map (fun kv => (fst kv, g (snd kv))) m) = option_map g (sget Z.eqb k m).
   Proof.
-    intros s o a NI H. destruct o as [f t sg | t n b | b amt | b pid amt | b pid |]; cbn [step].
+    intros k m. induction m as [|[k' v] m IH]; [reflexivity|]. cbn. destruct (k =? k'); [reflexivity | exact IH].
+  Qed.
+
+  (* the restart keeps every record: this uses the generated fact genesis_import_keeps_records = true *)
+  Lemma export_import_keeps_record : forall h s a, has_record (export_import h s) a = has_record s a.
+  Proof.
+    intros h s a. unfold export_import, has_record, shas. cbn [Gen_C14.genesis_import_keeps_records mig set_mig recs].
+    rewrite sget_map_values. destruct (sget Z.eqb a (recs (mig s))); reflexivity.
+  Qed.
+
+  Lemma step_keeps_record : forall s o a, has_record s a = true -> has_record (step sigT recover s o) a = true.
+  Proof.
+    intros s o a H. destruct o as [f t sg | t n b | b amt | b pid amt | b pid | h]; cbn [step].
     - destruct (migrate_tx sigT recover s f t sg) as [s'| |] eqn:E; cbn [keep]; try exact H.
       rewrite (migrate_tx_records _ _ _ _ _ a E), H. apply orb_true_r.
     - unfold has_record. rewrite end_block_mig. exact H.
@@ -105,27 +116,26 @@ Section Hist.
       unfold has_record. rewrite (add_deposit_mig _ _ _ _ _ E). exact H.
     - destruct (cast_vote b pid s) as [s'| |] eqn:E; cbn [keep]; try exact H.
       unfold has_record. rewrite (vote_mig _ _ _ _ E). exact H.
-    - destruct NI.
+    - rewrite export_import_keeps_record. exact H.
   Qed.
 
-  Lemma run_keeps_record : forall ops s a, Forall no_import ops -> has_record s a = true -> has_record (run sigT recover s ops) a = true.
+  Lemma run_keeps_record : forall ops s a, has_record s a = true -> has_record (run sigT recover s ops) a = true.
   Proof.
-    induction ops as [|o ops IH]; intros s a F H; [exact H|]. inversion F. subst. cbn. apply IH; [assumption|].
-    apply step_keeps_record; assumption.
+    induction ops as [|o ops IH]; intros s a H; [exact H|]. cbn. apply IH. apply step_keeps_record. exact H.
   Qed.
 
   (* once: after an accepted migration, no later migration involving either address is accepted, whatever happens
-     in between — as long as the chain is not restarted from an exported genesis (see once_lost_on_import) *)
+     in between — migrations, blocks, governance, restarts from an exported genesis *)
   Theorem once : forall s from to sg s',
     migrate_tx sigT recover s from to sg = Ok s' ->
-    forall ops f t sg2, Forall no_import ops -> f = from \/ f = to \/ t = from \/ t = to ->
+    forall ops f t sg2, f = from \/ f = to \/ t = from \/ t = to ->
     forall s2, migrate_tx sigT recover (run sigT recover s' ops) f t sg2 <> Ok s2.
   Proof.
-    intros s from to sg s' H ops f t sg2 NI Hx s2 A.
+    intros s from to sg s' H ops f t sg2 Hx s2 A.
     assert (Rf : has_record (run sigT recover s' ops) from = true).
-    { apply run_keeps_record; [exact NI|]. rewrite (migrate_tx_records _ _ _ _ _ from H), Z.eqb_refl. rewrite orb_true_r. reflexivity. }
+    { apply run_keeps_record. rewrite (migrate_tx_records _ _ _ _ _ from H), Z.eqb_refl. rewrite orb_true_r. reflexivity. }
     assert (Rt : has_record (run sigT recover s' ops) to = true).
-    { apply run_keeps_record; [exact NI|]. rewrite (migrate_tx_records _ _ _ _ _ to H), Z.eqb_refl. reflexivity. }
+    { apply run_keeps_record. rewrite (migrate_tx_records _ _ _ _ _ to H), Z.eqb_refl. reflexivity. }
     apply migrate_tx_inv in A. destruct A as (_ & _ & A). apply migrate_account_inv in A.
     destruct A as (R1 & R2 & _). destruct Hx as [E|[E|[E|E]]]; subst; congruence.
   Qed.
@@ -263,17 +273,26 @@ Proof.
   split; [vm_compute; reflexivity|]. split; eexists; [|split; [|split]]; vm_compute; reflexivity.
 Qed.
 
-(* the one-shot rule does not survive a restart from an exported genesis: source 3 migrates to 7, the chain is
-   exported and re-initialised, and the used target 7 is accepted again (for source 2), so is the used source 3 *)
-Theorem once_lost_on_import :
+(* ---- BEFORE commit 11e9a2c (finding C14-3, fixed): AppModule.InitGenesis dropped the exported records.  A statement
+   about the OLD import step, kept as a regression witness; it is not the model. ---- *)
+Definition prefix_export_import (s : state) : state := set_mig s {| recs := []; dir_from := []; dir_to := [] |}.
+
+Theorem prefix_once_lost_on_import :
   let s0 := run unit sig_any ex_init [OMigrate unit 3 7 (Some tt)] in
-  let s := run unit sig_any ex_init [OMigrate unit 3 7 (Some tt); OExportImport unit] in
+  let s := prefix_export_import s0 in
   wf s /\ has_record s0 7 = true /\ has_record s0 3 = true /\ has_record s 7 = false /\ has_record s 3 = false /\
   (exists s', migrate_tx unit sig_any s 2 7 (Some tt) = Ok s' /\ bal_of s' 7 0 = 10000) /\
   (exists s', migrate_tx unit sig_any s 3 6 (Some tt) = Ok s').
 Proof.
   cbv zeta. repeat (split; [vm_compute; reflexivity|]). split; eexists; [split|]; vm_compute; reflexivity.
 Qed.
+
+(* today: the restart keeps the records and the used addresses stay refused *)
+Theorem once_across_import_example :
+  let s := run unit sig_any ex_init [OMigrate unit 3 7 (Some tt); OExportImport unit 9] in
+  has_record s 7 = true /\ has_record s 3 = true /\
+  migrate_tx unit sig_any s 2 7 (Some tt) = Err EMigrated /\ migrate_tx unit sig_any s 3 6 (Some tt) = Err EMigrated.
+Proof. cbv zeta. repeat split; vm_compute; reflexivity. Qed.
 
 (* the portfolio theorem is about something: the example's source holds two denominations, a delegation with
    starting info and an unbonding record with two entries, one in a slice shared with delegator 9 *)
